@@ -272,6 +272,31 @@ fn fold_laws_case<const R: usize, const N: usize>(shape: [usize; R]) {
     core::mem::forget(scs);
 }
 
+/// fold is a function of the spectrum alone: folding two spectra with the same number of cells but
+/// different shapes one after the other gives each its own fold
+// @harness props=C05 tier=quick group=f64 bounds=shapes=[2,3]-then-[3,2]-then-[6],cells=0..7,fill=0 timeout=1200
+#[kani::proof]
+#[kani::unwind(10)]
+fn fold_sequence_same_cell_count() {
+    let a: [u8; 6] = small::<6>(8);
+    let b: [u8; 6] = small::<6>(8);
+    let c: [u8; 6] = small::<6>(8);
+    let (sa, sb, sc) = (scs_of([2, 3], &a), scs_of([3, 2], &b), scs_of([6], &c));
+    let fa = sa.fold().into_spectrum(0.0);
+    let fb = sb.fold().into_spectrum(0.0);
+    let fc = sc.fold().into_spectrum(0.0);
+    fold_check(&[2, 3], &a, fa.inner().as_slice(), 0.0);
+    fold_check(&[3, 2], &b, fb.inner().as_slice(), 0.0);
+    fold_check(&[6], &c, fc.inner().as_slice(), 0.0);
+    kani::cover!(true, "reached end");
+    core::mem::forget(fa);
+    core::mem::forget(fb);
+    core::mem::forget(fc);
+    core::mem::forget(sa);
+    core::mem::forget(sb);
+    core::mem::forget(sc);
+}
+
 macro_rules! fold_laws_h {
     ($name:ident, $r:literal, $n:literal, $shape:expr, $unw:literal) => {
         #[kani::proof]
